@@ -236,19 +236,21 @@ def plane(ctx):
     if given:
         i = int(rng.integers(0, nax))
         x, cands, where = _coord_in_cell(rng, spec, ax, i)
+        if spec.int_corners and rng.random() < 0.6:
+            # integer-typed corners, a coordinate an eighth of a cell off a lattice point
+            # (exact in single precision), handed over as numpy.float32 / float16 / float64
+            xq = float(spec.pmin[ax] + (i + int(rng.integers(1, 8)) / 8) * spec.cell[ax])
+            conv = gen.pick(rng, [np.float32, np.float32, np.float16, np.float64])
+            if float(conv(xq)) == xq:
+                x, cands, where = conv(xq), [i], "eighth_" + conv.__name__
+                ctx.event("plane.single_precision_coordinate_on_int_cornered_mesh")
         if rng.random() < 0.1:   # the face exactly as the region reports it
             hi_face = rng.random() < 0.5
             x = float(mesh.region.pmax[ax] if hi_face else mesh.region.pmin[ax])
             cands, where = [nax - 1 if hi_face else 0], "region_face"
-        if spec.int_corners and float(x).is_integer() and rng.random() < 0.5:
+        if (spec.int_corners and not where.startswith("eighth") and float(x).is_integer()
+                and rng.random() < 0.5):
             x = int(x)
-        elif (spec.int_corners and where == "centre" and rng.random() < 0.5
-              and float(np.float32(x)) == float(x)):
-            # a single-precision coordinate (half-integers are exact in float32) on a mesh
-            # whose corners were given as Python integers
-            x = gen.pick(rng, [np.float32, np.float16])(x) if float(np.float16(x)) == float(x) \
-                else np.float32(x)
-            where = "centre_float32"
     else:
         x, where = None, "central"
         cands = [(nax - 1) // 2] if nax % 2 else [nax // 2 - 1, nax // 2]
